@@ -170,7 +170,7 @@ func (s *heapSubj[T]) ModelApply(op Op) {
 		if i := s.minIndex(); i >= 0 {
 			s.m = slices.Delete(slices.Clone(s.m), i, i+1)
 		}
-	case "Peek":
+	case "Peek", "Churn":
 	case "PushOwn":
 		s.m = append(slices.Clone(s.m), s.m...)
 	case "Clear":
@@ -239,6 +239,22 @@ func (s *heapSubj[T]) Step(op Op, o *Oracle) {
 	case "Clear":
 		s.c.Clear()
 		s.m = nil
+	case "Churn": // op.A[0] push/pop pairs
+		for i := 0; i < op.A[0]; i++ {
+			x := s.d.At((op.A[1] + i) % len(s.d.Tab))
+			s.push(x)
+			s.m = append(slices.Clone(s.m), x)
+			v, ok := s.pop()
+			s.judgeMin(o, "Pop", v, ok)
+			j := s.indexOf(v)
+			if !ok || j < 0 || o.Failed() {
+				break
+			}
+			s.m = slices.Delete(slices.Clone(s.m), j, j+1)
+			if i%512 == 0 {
+				opSteps = 0
+			}
+		}
 	case "Fill":
 		s.push(s.vals(heapFill(op.A))...)
 		s.m = append(slices.Clone(s.m), s.vals(heapFill(op.A))...)
